@@ -381,6 +381,13 @@ def family_matrix():
                     else:
                         steps += [{"op": "wait_outcomes", "n": i, "ms": 2000}, {"op": "close"}]
                     out.append(sc("m-%s-c%d-%s-n%d" % (v, codec, acks, nmsg), "matrix", cfg, steps))
+                    if codec in (0, 2) and acks != "none" and vt(v) >= (0, 10):
+                        # the topic uses LogAppendTime: responses carry the broker's append time (offsets are reported as always)
+                        cfg2 = dict(cfg, logAppend=True)
+                        st2 = [dict(x) for x in steps]
+                        for x in st2:
+                            x.pop("ts", None)
+                        out.append(sc("m-%s-c%d-%s-n%d-lat" % (v, codec, acks, nmsg), "matrix", cfg2, st2))
     return out
 
 
